@@ -386,9 +386,14 @@ func TestC06(t *testing.T) {
 			c.Fail(ev.Sig{"op": "panic", "site": panicSite(p)}, w, nil, "ReadMessage panicked: %s", p)
 			return
 		}
-		if err != nil || m1 == nil {
+		if m1 == nil {
 			c.Event("doubtful_refused", 1)
 			return
+		}
+		// (a message handed out together with an error has been returned too: the application may
+		// keep it, e.g. to log what was refused)
+		if err != nil {
+			c.Event("doubtful_returned_with_error", 1)
 		}
 		before, err := snap(m1)
 		if err != nil {
